@@ -63,9 +63,11 @@ class HookWorld(World):
             r = ro.random()
             i = ro.randrange(nslots)
             if r < 0.14:
-                kind = ro.choice(["probe", "probe", "clamp", "norm"])
+                kind = ro.choice(["probe", "probe", "clamp", "norm", "plain"])
                 op = {"op": "create", "i": i, "kind": kind, "train": ro.random() < 0.7, "eval": ro.random() < 0.7,
                       "pre": ro.random() < 0.4, "prepend": ro.random() < 0.3, "register": ro.random() < 0.6}
+                if kind == "plain":
+                    op["both"] = ro.random() < 0.5      # a plain Hook may carry a pre- and a post-callable at once
                 if kind == "clamp":
                     lo = ro.choice([None, -1.0, 0.0, 0.25])
                     hi = ro.choice([None, 0.5, 1.0, 2.0])
@@ -145,7 +147,7 @@ class HookWorld(World):
         fired_expect = {}  # slot -> expected number of firings (probe)
 
         def live_registered():
-            return sum(1 for m in model.values() if m["alive"] and m["registered"])
+            return sum(m.get("handles", 1) for m in model.values() if m["alive"] and m["registered"])
 
         def check_handles(where):
             n = len(target._forward_hooks) + len(target._forward_pre_hooks)
@@ -222,7 +224,23 @@ class HookWorld(World):
                 kw = dict(train_update=op["train"], eval_update=op["eval"], as_prehook=op["pre"], prepend=op["prepend"])
                 m = {"alive": True, "registered": False, "train": op["train"], "eval": op["eval"], "pre": op["pre"], "kind": op["kind"]}
                 with ctx.impl("create hook", {"kind": op["kind"]}):
-                    if op["kind"] == "probe":
+                    if op["kind"] == "plain":
+                        from inferno import Hook
+
+                        rec = log.setdefault(s, [])
+                        rec.clear()
+                        both = op.get("both", False)
+                        pre_fn = (lambda module, args, rec=rec: rec.append(("pre", module.calls)))
+                        post_fn = (lambda module, args, output, rec=rec: rec.append(("post", module.calls)))
+                        use_pre = both or op["pre"]
+                        use_post = both or not op["pre"]
+                        hooks[s] = Hook(prehook=pre_fn if use_pre else None, posthook=post_fn if use_post else None,
+                                        prehook_kwargs={"prepend": op["prepend"]} if use_pre else None, posthook_kwargs={"prepend": op["prepend"]} if use_post else None,
+                                        train_update=op["train"], eval_update=op["eval"])
+                        m["handles"] = 2 if both else 1
+                        m["both"] = both
+                        fired_expect[s] = 0
+                    elif op["kind"] == "probe":
                         hooks[s] = make_probe(s, **kw)
                         fired_expect[s] = 0
                         log[s] = log.get(s, [])
@@ -238,7 +256,10 @@ class HookWorld(World):
                 model[s] = m
                 if op["register"]:
                     with ctx.impl("register"):
-                        hooks[s].register()
+                        if op["kind"] == "plain":
+                            hooks[s].register(target)
+                        else:
+                            hooks[s].register()
                     m["registered"] = True
                 ctx.log("create", s, op["kind"], op["register"])
             elif name == "register":
@@ -250,8 +271,21 @@ class HookWorld(World):
                 else:
                     if "was_registered" in m:
                         ctx.probe("re_register_after_deregister")
+                if m["kind"] == "plain" and m["registered"]:
+                    # a plain Hook refuses a second registration (documented RuntimeError) and must stay registered once
+                    try:
+                        hooks[s].register(target)
+                        ctx.fail("double_register_accepted", {"kind": "plain"}, "a registered Hook accepted a second register()")
+                    except RuntimeError:
+                        pass
+                    ctx.log("register", s)
+                    check_handles(name)
+                    continue
                 with ctx.impl("register"):
-                    hooks[s].register()
+                    if m["kind"] == "plain":
+                        hooks[s].register(target)
+                    else:
+                        hooks[s].register()
                 m["registered"] = True
                 ctx.log("register", s)
             elif name == "deregister":
@@ -290,7 +324,7 @@ class HookWorld(World):
             elif name == "call":
                 before_calls = target.calls
                 firing = [(k, m) for k, m in model.items() if m["alive"] and m["registered"] and enabled(m)]
-                shipped = [(k, m) for k, m in firing if m["kind"] != "probe"]
+                shipped = [(k, m) for k, m in firing if m["kind"] in ("clamp", "norm")]
                 snap = {a: getattr(target, a).detach().clone() for a in set(attrs.values())}
                 for k, m in shipped:
                     m["_before"] = snap[attrs[m["attr"]]]
@@ -301,6 +335,14 @@ class HookWorld(World):
                 if any(m["alive"] and m["registered"] for m in model.values()):
                     ctx.nontrivial = True
                 for k, m in firing:
+                    if m["kind"] == "plain":
+                        n_new = 2 if m.get("both") else 1
+                        fired_expect[k] += n_new
+                        rec = log[k][-n_new:] if len(log[k]) >= n_new else []
+                        want = ([("pre", before_calls), ("post", before_calls + 1)] if m.get("both") else
+                                [("pre", before_calls)] if m["pre"] else [("post", before_calls + 1)])
+                        if rec and rec != want:
+                            ctx.fail("hook_position", {"pre": m["pre"], "kind": "plain"}, f"plain hook {k} ran as {rec}, expected {want}")
                     if m["kind"] == "probe":
                         fired_expect[k] += 1
                         rec = log[k]
@@ -320,7 +362,7 @@ class HookWorld(World):
                             ctx.fail("ran_when_not_armed", {"attr": a, "training": target.training}, f"attribute {a} changed by a call with no armed hook")
                 check_counts("call")
             elif name == "manual":
-                if s not in hooks:
+                if s not in hooks or model[s]["kind"] == "plain":
                     continue
                 m = model[s]
                 runs = (m["registered"] or op["force"]) and (op["ignore_mode"] or enabled(m))
